@@ -114,8 +114,16 @@ fn run_cells_prop(o: &Opts, rep: &mut Report) {
             "every unary operator, index, if × boundary pool; every binary operator × all ordered pairs of the boundary pool (type extremes, mutation-killing values); for C02 also uppercase / lowercase / trim over a string probe pool (context-sensitive and multi-character case mappings incl. final sigma, every White_Space character at either end and inside, look-alikes) and `contains` between its members",
         )],
     };
+    let mut pools = pools;
+    if o.prop == "C01" || o.prop == "C02" {
+        pools.push((
+            "cells-dense",
+            pool::dense_pool(full),
+            "every unary operator × dense pool; every binary operator × all ordered same-type pairs (and DateTime × Duration) of the dense pool: 2^k−1 / 2^k / 2^k+1 of both signs, operands whose product sits at the i128 edge, Decimal mantissa × scale edges, instants and spans at which the nanosecond / microsecond / millisecond / 32-bit accessors of chrono overflow",
+        ));
+    }
     for (name, p, rule) in pools {
-        let mut cs = cells::cells_over(&p);
+        let mut cs = if name == "cells-dense" { cells::cells_same_type(&p) } else { cells::cells_over(&p) };
         if name == "cells-boundary" && o.prop == "C02" {
             // the string built-ins over the string probe pool (unary), and `contains` / `==` between its members
             let sp = pool::string_probe_pool();
@@ -248,6 +256,22 @@ fn main() {
             let mut rng = rng::Rng::new(o.seed);
             let cases = streams::cache_cases(&mut rng, o.tier == "thorough");
             run_rs_stream(&o, &mut rep, "cache-histories", "counting / wrapping / identity user functions, cacheable or not: every ordered pair of 18 equal-or-similar arguments (i1 \"1\" \"i1\" [i1] f1 d1 d1.0 d1.00 f0 f-0 none NaN …) over two rules and 3 consecutive evaluations; every subset of failing invocation indices (32) x 4 call sequences x 3 rule splits; 40 / 200 / 1000 distinct arguments each called twice in opposite orders (in one rule, and one call per rule over 400 rules), 300-element and 900-byte arguments differing only at the end; random histories; compared on the invocation log and all outcomes", false, cases, "full");
+            // "the cache is per evaluation": also after an evaluation that never completed.  The abandonment histories of the
+            // C12 executor (an evaluation dropped after j polls — with a cacheable call already completed —, then fresh
+            // evaluations whose own invocation log must be the one of an evaluation run alone) judged for C11
+            let mut tmp = report::Report { property: "C12".into(), ..Default::default() };
+            sched::run(&mut tmp, &o.driver, o.workers, o.tier == "thorough", o.seed);
+            for mut sr in tmp.streams {
+                sr.name = "abandoned-then-fresh".into();
+                rep.streams.push(sr);
+            }
+            for mut f in tmp.findings {
+                if f.signature.contains("abandon") {
+                    f.signature = f.signature.replace("C12", "C11");
+                    f.predicate = "a fresh evaluation invokes its cacheable functions itself: nothing cached by an evaluation that was abandoned is observed".into();
+                    rep.add_finding(f);
+                }
+            }
         }
         p => {
             eprintln!("unknown property {p}");
